@@ -252,6 +252,10 @@ func (e *Extractor) extractPrefixesAlternate(re *syntax.Regexp, depth int) *Seq 
 			// Therefore the whole alternation has no prefix requirement
 			return NewSeq()
 		}
+		if seq.IsPartialCoverage() {
+			// A nested alternation already dropped branches
+			overflowed = true
+		}
 		for i := 0; i < seq.Len(); i++ {
 			allLits = append(allLits, seq.Get(i))
 			if len(allLits) > crossLimit {
@@ -279,6 +283,7 @@ func (e *Extractor) extractPrefixesAlternate(re *syntax.Regexp, depth int) *Seq 
 		result.Dedup()
 		if result.Len() > e.config.MaxLiterals {
 			result.literals = result.literals[:e.config.MaxLiterals]
+			overflowed = true // literals were dropped
 		}
 		// Mark partial coverage when overflow truncated branches.
 		// Prefilter with partial coverage CANNOT be used in candidate loops
@@ -345,6 +350,10 @@ func (e *Extractor) extractPrefixesConcat(re *syntax.Regexp, depth int) *Seq {
 
 		// Compute cross-product of accumulator with contribution
 		acc.CrossForward(contribution)
+		if contribution.IsPartialCoverage() {
+			// The contribution lost some of its alternatives, so did the product
+			acc.partialCoverage = true
+		}
 
 		// Enforce overflow limits
 		if acc.Len() > crossLimit || acc.Len() > e.config.MaxLiterals {
@@ -449,8 +458,8 @@ func (e *Extractor) expandAlternateContribution(alt *syntax.Regexp, depth int) *
 	overflowed := false
 	for _, sub := range alt.Sub {
 		seq := e.extractPrefixes(sub, depth+1)
-		if seq.IsEmpty() {
-			return nil // One branch has no literals, cannot expand
+		if seq.IsEmpty() || seq.IsPartialCoverage() {
+			return nil // One branch has no (or not all of its) literals, cannot expand
 		}
 
 		if overflowed {
@@ -478,6 +487,7 @@ func (e *Extractor) expandAlternateContribution(alt *syntax.Regexp, depth int) *
 		result.Dedup()
 		if result.Len() > e.config.MaxLiterals {
 			result.literals = result.literals[:e.config.MaxLiterals]
+			result.partialCoverage = true // branches were dropped
 		}
 	}
 
@@ -547,9 +557,11 @@ func (e *Extractor) handleCrossProductOverflow(s *Seq) *Seq {
 	e.markAllInexact(s)
 	s.Dedup()
 
-	// If still over MaxLiterals after dedup, truncate the list
+	// If still over MaxLiterals after dedup, truncate the list.
+	// Matches starting with a dropped literal are no longer covered: say so.
 	if s.Len() > e.config.MaxLiterals {
 		s.literals = s.literals[:e.config.MaxLiterals]
+		s.partialCoverage = true
 	}
 	return s
 }
@@ -694,8 +706,9 @@ func (e *Extractor) extractSuffixes(re *syntax.Regexp, depth int) *Seq {
 			}
 			for i := 0; i < seq.Len(); i++ {
 				allLits = append(allLits, seq.Get(i))
-				if len(allLits) >= e.config.MaxLiterals {
-					return NewSeq(allLits...)
+				if len(allLits) > e.config.MaxLiterals {
+					// Too many literals: dropping some would lose alternatives
+					return NewSeq()
 				}
 			}
 		}
@@ -794,8 +807,9 @@ func (e *Extractor) extractInner(re *syntax.Regexp, depth int) *Seq {
 			}
 			for i := 0; i < seq.Len(); i++ {
 				allLits = append(allLits, seq.Get(i))
-				if len(allLits) >= e.config.MaxLiterals {
-					return NewSeq(allLits...)
+				if len(allLits) > e.config.MaxLiterals {
+					// Too many literals: dropping some would lose alternatives
+					return NewSeq()
 				}
 			}
 		}
@@ -978,8 +992,8 @@ func (e *Extractor) expandCharClass(re *syntax.Regexp) *Seq {
 	for i := 0; i < len(re.Rune); i += 2 {
 		lo, hi := re.Rune[i], re.Rune[i+1]
 		count += int(hi - lo + 1)
-		if count > e.config.MaxClassSize {
-			// Too large, don't expand
+		if count > e.config.MaxClassSize || count > e.config.MaxLiterals {
+			// Too large, don't expand (a truncated expansion would miss members)
 			return NewSeq()
 		}
 	}
